@@ -785,6 +785,10 @@ func (c *Checker) checkRangePattern(node *ast.RangeLiteralNode, typ types.Type) 
 		)
 	}
 
+	if startType == nil {
+		// beginless range
+		startType = endType
+	}
 	c.checkCanMatch(typ, startType, node.Location())
 	node.SetType(startType)
 	return node, types.Never{}
